@@ -11,7 +11,7 @@ mkdir -p "$D/repo" "$D/verif"
 rsync -a --exclude .git /repo/ "$D/repo/"
 cp /verif/known_findings.json "$D/verif/"
 if ! (cd "$D/repo" && patch -p1 -s < "$PATCH"); then echo "PATCH-FAILED $PATCH"; rm -rf "$D"; exit 3; fi
-/verif/bin/gsdcheck -repo "$D/repo" -verif "$D/verif" -property "$PROPS" -tier "$TIER" > "$D/out.txt" 2>&1
+${GSD:-/verif/bin/gsdcheck} -repo "$D/repo" -verif "$D/verif" -property "$PROPS" -tier "$TIER" > "$D/out.txt" 2>&1
 rc=$?
 grep -E "FAIL rule|VIOLATION|load failure|^normalise:" "$D/out.txt" | sed "s|$D/repo/||g" | head -${MUT_LINES:-12}
 echo "exit=$rc"
